@@ -171,7 +171,6 @@ def channel_read_map (self : CChannel) (reader : CReader) : (Nat × Nat) × CCha
     let nbytes := 0
     let self := { self with holds_pos := self.holds_pos.set pos_ix (self.head) }
     let self := { self with holds_cycles := self.holds_cycles.set cycle_ix (self.cycle) }
-    let bookmark_moved := 1
     if (bookmark_moved ≠ 0) then
       let self := { self with notified := self.notified + 1 }
       ((out, (out + nbytes)), self, reader)
@@ -193,7 +192,6 @@ def channel_read_map (self : CChannel) (reader : CReader) : (Nat × Nat) × CCha
           let nbytes := 0
           let self := { self with holds_pos := self.holds_pos.set pos_ix (self.head) }
           let self := { self with holds_cycles := self.holds_cycles.set cycle_ix (self.cycle) }
-          let bookmark_moved := 1
           if (bookmark_moved ≠ 0) then
             let self := { self with notified := self.notified + 1 }
             ((out, (out + nbytes)), self, reader)
@@ -239,7 +237,6 @@ def channel_read_map (self : CChannel) (reader : CReader) : (Nat × Nat) × CCha
           let nbytes := 0
           let self := { self with holds_pos := self.holds_pos.set pos_ix (self.head) }
           let self := { self with holds_cycles := self.holds_cycles.set cycle_ix (self.cycle) }
-          let bookmark_moved := 1
           if (bookmark_moved ≠ 0) then
             let self := { self with notified := self.notified + 1 }
             ((out, (out + nbytes)), self, reader)
@@ -286,7 +283,6 @@ def channel_read_map (self : CChannel) (reader : CReader) : (Nat × Nat) × CCha
           let nbytes := 0
           let self := { self with holds_pos := self.holds_pos.set pos_ix (self.head) }
           let self := { self with holds_cycles := self.holds_cycles.set cycle_ix (self.cycle) }
-          let bookmark_moved := 1
           if (bookmark_moved ≠ 0) then
             let self := { self with notified := self.notified + 1 }
             ((out, (out + nbytes)), self, reader)
@@ -332,7 +328,6 @@ def channel_read_map (self : CChannel) (reader : CReader) : (Nat × Nat) × CCha
           let nbytes := 0
           let self := { self with holds_pos := self.holds_pos.set pos_ix (self.head) }
           let self := { self with holds_cycles := self.holds_cycles.set cycle_ix (self.cycle) }
-          let bookmark_moved := 1
           if (bookmark_moved ≠ 0) then
             let self := { self with notified := self.notified + 1 }
             ((out, (out + nbytes)), self, reader)
